@@ -330,6 +330,18 @@ pub struct PtSpec {
     /// in BMP 27 (instead of 00): the exchange still ends with the abort packet.
     #[serde(default)]
     pub status_shows_abort_code: bool,
+    /// A terminal that falls silent (fault kind Silence) also stops reading: client writes on that
+    /// connection stay pending for ever.
+    #[serde(default)]
+    pub silent_terminal_stops_reading: bool,
+    /// The first n initialisation commands (06 93) the terminal receives are aborted with code 0x83,
+    /// whatever the plan's outcome queues say.
+    #[serde(default)]
+    pub init_abort_first_n: u8,
+    /// The status information of a reservation reports this amount (a partial approval, say) instead
+    /// of the amount requested.
+    #[serde(default)]
+    pub reservation_status_amount: Option<u64>,
 }
 
 // ---------------------------------------------------------------- state
@@ -432,6 +444,8 @@ pub struct PtShared {
     pub anomalies: Vec<(usize, u16, String)>,
     /// Planned BadBody / Foreign faults that were not injected because the library decodes them.
     pub not_a_fault: u64,
+    /// Initialisation commands received so far.
+    pub inits_seen: u8,
     pub faults: Vec<FaultSpec>,
     pub fired: Vec<FaultFired>,
     pub current_op: i32,
@@ -466,6 +480,7 @@ impl PtShared {
             requests: vec![],
             anomalies: vec![],
             not_a_fault: 0,
+            inits_seen: 0,
             faults,
             fired: vec![],
             current_op: -1,
@@ -748,6 +763,11 @@ impl PtConn {
                     FaultKind::Silence => {
                         fire(&mut pt, kind);
                         self.silent = true;
+                        if pt.spec.silent_terminal_stops_reading {
+                            // a terminal that hangs does not drain its socket either: what the client
+                            // still writes on this connection stays pending
+                            io.block_writes();
+                        }
                         return false;
                     }
                     FaultKind::StallMid(n) => {
@@ -1013,7 +1033,11 @@ impl PtConn {
                 end(&mut out, o, Effect::None);
             }
             (0x06, 0x93) => {
-                let (p, pr, e) = pt.q.init.pop_front().unwrap_or((0, 0, EndSpec::Completion));
+                let (p, pr, mut e) = pt.q.init.pop_front().unwrap_or((0, 0, EndSpec::Completion));
+                pt.inits_seen = pt.inits_seen.saturating_add(1);
+                if pt.inits_seen <= pt.spec.init_abort_first_n {
+                    e = EndSpec::Abort(0x83);
+                }
                 pre(&mut out, p);
                 prints(&mut out, pr);
                 end(&mut out, e, Effect::None);
@@ -1157,7 +1181,8 @@ impl PtConn {
                     let r = pt.issue_receipt();
                     receipt = Some(r);
                     pt.requests[req].offered_receipt = Some(r);
-                    let mut s = pt.status(amount, currency, Some(r));
+                    let shown = pt.spec.reservation_status_amount.unwrap_or(amount);
+                    let mut s = pt.status(shown, currency, Some(r));
                     if let (true, EndSpec::Abort(c)) = (pt.spec.status_shows_abort_code, o.end) {
                         s.result_code = Some(c);
                     }
